@@ -379,6 +379,8 @@ def c07(tier, seed):
     lp_max, lq_max = (4, 4) if tier == 'quick' else (5, 6)
     kc = [{'lp': lp, 'lq': lq} for lp in range(lp_max + 1) for lq in range(lq_max + 1)]
     ck.add(run_cases(prog, altroot.run_kernel_case, kc), 'AltrootFS::path(q) = P + q on symbolic canonical P and q')
+    pk = [{'lq': lq} for lq in range(0, (6 if tier == 'quick' else 8) + 1)]
+    ck.add(run_cases(prog, altroot.run_phys_kernel_case, pk), 'PhysicalFS::get_path(q) on symbolic canonical q resolves to root + q (PathBuf::join and lexical OS resolution from the OS model)')
     u = UNIVERSES['U4' if tier == 'quick' else 'U5']()
     shs = shapes(u)
     ops = onestep.PRIMS + ['read', 'read_dir', 'exists', 'create_dir_all', 'remove_dir_all']
@@ -393,7 +395,7 @@ def c07(tier, seed):
             cases.append({'universe': u.tag, 'P': P, 'shape': sh, 'ops': ['write', 'append', 'remove_file', 'remove_dir', 'remove_dir_all', 'create_dir', 'create_dir_all', 'read'], 'hostile': True})
     ck.add(run_cases(prog, altroot.run_confine_case, cases), 'exactness and confinement: every op on every path (and through hostile join strings) from every well-formed state')
     ck.bounds = {'kernel': '|P| <= %d, |q| <= %d bytes, alphabet {/ . a b U+00E9}' % (lp_max, lq_max), 'altroot_dirs': Ps, 'universe': u.tag,
-                 'hostile_join_strings': altroot.HOSTILE, 'not_encoded': 'PhysicalFS::get_path / PathBuf::join (kernel behind libc): the PhysicalFS half of the statement is outside this check'}
+                 'hostile_join_strings': altroot.HOSTILE, 'physical': 'PhysicalFS::get_path on |q| <= %d bytes over the OS model (symlinks aside); operations of PhysicalFS on the real kernel are not encoded' % (6 if tier == 'quick' else 8)}
     ck.assumptions = COMMON_ASSUMPTIONS + ['the path API only hands canonical paths to a backend (checked by C06); calling the FileSystem trait of an altroot directly with a non-canonical string is outside']
     ck.rule = 'a state = (P, well-formed tree in the altroot view, entries beside and above P); transitions = call paths; kernel: (|P|,|q|) classes with symbolic bytes'
     return ck.finish(prog)
